@@ -972,6 +972,9 @@ pub struct NetCfg {
     pub max_path: usize,
     pub budget: Duration,
     pub workers: usize,
+    /// false: depth first.  true: iterative deviation bounding - the default schedule (always the
+    /// first enabled transition) first, then every schedule that departs from it once, then twice, ...
+    pub by_deviations: bool,
 }
 
 #[derive(Default, Debug, Clone)]
@@ -983,6 +986,8 @@ pub struct NetStats {
     pub max_path: usize,
     pub cap: Option<String>,
     pub cycles: u64,
+    /// with by_deviations: every schedule with at most this many departures from the default one was explored
+    pub deviations_completed: Option<usize>,
 }
 
 pub struct NetFinding {
@@ -1002,7 +1007,8 @@ pub fn explore_net(
 ) -> Result<(NetStats, Vec<NetFinding>), String> {
     let start = Instant::now();
     let visited: Mutex<std::collections::HashSet<u128>> = Mutex::new(Default::default());
-    let stack: Mutex<Vec<Vec<usize>>> = Mutex::new(vec![vec![]]);
+    // work items by number of deviations (non-default choices) in the prefix; depth first uses bucket 0 only
+    let stack: Mutex<Vec<Vec<Vec<usize>>>> = Mutex::new(vec![vec![vec![]]]);
     let active = std::sync::atomic::AtomicUsize::new(0);
     let stats: Mutex<NetStats> = Mutex::new(NetStats::default());
     let findings: Mutex<Vec<NetFinding>> = Mutex::new(vec![]);
@@ -1016,7 +1022,7 @@ pub fn explore_net(
                 }
                 let item = {
                     let mut st = stack.lock().unwrap();
-                    let it = st.pop();
+                    let it = st.iter_mut().find(|b| !b.is_empty()).and_then(|b| b.pop());
                     if it.is_some() {
                         active.fetch_add(1, Ordering::SeqCst);
                     }
@@ -1095,10 +1101,14 @@ pub fn explore_net(
                         }
                         {
                             let mut st = stack.lock().unwrap();
+                            let bucket = if cfg.by_deviations { choices.iter().filter(|c| **c != 0).count() + 1 } else { 0 };
+                            while st.len() <= bucket {
+                                st.push(vec![]);
+                            }
                             for alt in (1..en.len()).rev() {
                                 let mut p = choices.clone();
                                 p.push(alt);
-                                st.push(p);
+                                st[bucket].push(p);
                             }
                         }
                         let t = en[0].clone();
@@ -1149,7 +1159,15 @@ pub fn explore_net(
     if let Some(e) = fatal.into_inner().unwrap() {
         return Err(e);
     }
-    let st = stats.into_inner().unwrap();
+    let mut st = stats.into_inner().unwrap();
+    if cfg.by_deviations {
+        let left = stack.into_inner().unwrap();
+        st.deviations_completed = Some(match left.iter().position(|b| !b.is_empty()) {
+            Some(0) => 0,
+            Some(d) => d - 1,
+            None => left.len().saturating_sub(1),
+        });
+    }
     Ok((st, findings.into_inner().unwrap()))
 }
 
